@@ -1,11 +1,11 @@
 SPECIFICATION Spec
 CONSTANTS
-  Programs <- ProgramsThorough
+  Programs <- ProgramsQuick
   Clients = {1, 2}
-  Kinds = {"plain"}
+  Kinds = {"plain", "tls"}
   CloseTarget = "own"
   RegisterGuard = TRUE
-  Handshakes = FALSE
+  Handshakes = TRUE
   HsGuard = TRUE
   Record = FALSE
 INVARIANTS ServingWhileRunning RegistryExact StopPostcondition
